@@ -406,6 +406,21 @@ fn relaxed_wait() {
     std::hint::spin_loop();
 }
 
+/// verification only: makes a quiescent ring behave as if `origin` (a multiple of `BUFFER_SIZE`) more events had flowed
+/// through it -- all four sequence counters are advanced by `origin`, the buffered elements keep their slots
+#[cfg(feature = "verif")]
+impl<SlotType:          Debug + Default,
+     const BUFFER_SIZE: usize>
+AtomicMove<SlotType, BUFFER_SIZE> {
+    pub fn verif_rebase(&self, origin: u32) {
+        assert!(origin as usize % BUFFER_SIZE == 0);
+        self.head.store(self.head.load(Relaxed).wrapping_add(origin), Relaxed);
+        self.tail.store(self.tail.load(Relaxed).wrapping_add(origin), Relaxed);
+        self.dequeuer_head.store(self.dequeuer_head.load(Relaxed).wrapping_add(origin), Relaxed);
+        self.enqueuer_tail.store(self.enqueuer_tail.load(Relaxed).wrapping_add(origin), Relaxed);
+    }
+}
+
 #[cfg(any(test,doc))]
 mod tests {
     //! Unit tests for [atomic_meta](super) module
